@@ -229,6 +229,29 @@ theorem invalid_json_refused (m : Model) (n : Nat) (rd' : Reader)
     (hpull : pull m.rd = (.error .value, rd')) : (generate m n m.p).1 = .error .value := by
   simp [generate, hpull]
 
+/-! the text of the file is cut into lines at `\n`, `\r\n` and a lone `\r` - and nowhere else -/
+theorem splitLinesAux_plain (l cur : List Char) (h : ∀ c ∈ l, c ≠ '\n' ∧ c ≠ '\r') (rest : List Char) :
+    splitLinesAux cur (l ++ '\n' :: rest) = (cur.reverse ++ l) :: splitLinesAux [] rest := by
+  induction l generalizing cur with
+  | nil => rw [List.nil_append, splitLinesAux.eq_def]; simp
+  | cons c t ih =>
+    have hc := h c (by simp)
+    rw [List.cons_append, splitLinesAux.eq_def]
+    simp only [beq_iff_eq, hc.1, hc.2, if_false]
+    rw [ih (c :: cur) (fun d hd => h d (by simp [hd]))]
+    simp
+
+/-- **lines_end_only_at_newlines**: a stretch of text without `\n` and `\r` followed by `\n` is exactly one line,
+    whatever else it contains (form feed, vertical tab, FS/GS/RS, NEL, U+2028, U+2029 are ordinary characters) -/
+theorem lines_end_only_at_newlines (l rest : List Char) (h : ∀ c ∈ l, c ≠ '\n' ∧ c ≠ '\r') :
+    splitLines (l ++ '\n' :: rest) = l :: splitLines rest := by
+  simpa [splitLines] using splitLinesAux_plain l [] h rest
+
+example : splitLines "// page 1\x0cpage 2\u2028x\x85y\n[\"00\", 2]\r\n\r//\x1c\rz".toList =
+    ["// page 1\x0cpage 2\u2028x\x85y".toList, "[\"00\", 2]".toList, [], "//\x1c".toList, ['z']] := by decide +kernel
+example : isCommentOrBlank "\x1c\u2028\x85 //\x0cx".toList = true ∧ isCommentOrBlank "\uFEFF// x".toList = false := by
+  decide +kernel
+
 /-! non-vacuity: header split over two objects, a comment, two records -/
 def exLines : List Line :=
   [⟨"{\"label\": \"L\"}".toList, .obj [("label", .str "4c")]⟩,
